@@ -1,9 +1,705 @@
-// C05: not built yet (stub so that main.rs is already wired; replace the body, keep the two signatures).
-use crate::util::Sink;
+// C05: PWB v2 packets — structured generator (masks x sample counts x header bytes x near-valid variants)
+// and the implementation's observation: every accessor, both channel lists, waveform_at of all 79 channels.
+use crate::util::*;
+use alpha_g_detector::padwing::{AfterId, BoardId, ChannelId, Compression, PwbV2Packet, Trigger};
 
-pub fn run(_tier: &str, _seed: u64, _s: &mut Sink) {}
+/// canonical name of a channel: R1..R3, F1..F4, P1..P72 (taken from the Debug form, e.g. Pad(PadChannelId(17)))
+fn chan_name(c: &ChannelId) -> String {
+    let d = format!("{c:?}");
+    let digits: String = d.chars().filter(|c| c.is_ascii_digit()).collect();
+    let k = match c {
+        ChannelId::Reset(_) => "R",
+        ChannelId::Fpn(_) => "F",
+        ChannelId::Pad(_) => "P",
+    };
+    format!("{k}{digits}")
+}
+
+pub fn observe(bytes: &[u8]) -> String {
+    let b = bytes.to_vec();
+    match catch(move || {
+        PwbV2Packet::try_from(&b[..]).map(|p| {
+            let chip = match p.after_id() {
+                AfterId::A => "A",
+                AfterId::B => "B",
+                AfterId::C => "C",
+                AfterId::D => "D",
+            };
+            let comp = match p.compression() {
+                Compression::Raw => 0,
+            };
+            let trig = match p.trigger_source() {
+                Trigger::External => 0,
+                Trigger::Manual => 1,
+                Trigger::InternalPulse => 3,
+            };
+            let names = |l: &[ChannelId]| l.iter().map(chan_name).collect::<Vec<_>>().join(",");
+            let mut o = format!(
+                "ok {} {} {} {} {} {} {} {} {} {} {} {} {} S[{}] T[{}] W",
+                p.packet_version(),
+                chip,
+                comp,
+                trig,
+                hex(&p.board_id().mac_address()),
+                p.trigger_delay(),
+                p.trigger_timestamp(),
+                p.last_sca_cell(),
+                p.requested_samples(),
+                p.event_counter(),
+                p.fifo_max_depth(),
+                p.event_descriptor_write_depth(),
+                p.event_descriptor_read_depth(),
+                names(p.channels_sent()),
+                names(p.channels_over_threshold()),
+            );
+            // waveform_at for every channel of the chip, in readout order
+            for i in 1..=79u16 {
+                let c = ChannelId::try_from(i).unwrap();
+                o.push(' ');
+                o.push_str(&chan_name(&c));
+                o.push('=');
+                match p.waveform_at(c) {
+                    None => o.push('-'),
+                    Some(w) => o.push_str(&w.iter().map(|s| s.to_string()).collect::<Vec<_>>().join(",")),
+                }
+            }
+            o
+        })
+    }) {
+        None => "panic".to_string(),
+        Some(Err(_)) => "err".to_string(),
+        Some(Ok(o)) => o,
+    }
+}
+
+/// MAC addresses of PADWING_BOARDS, harvested through the public API (board names are two digits)
+pub fn known_macs() -> Vec<[u8; 6]> {
+    let mut v = Vec::new();
+    for i in 0..100 {
+        if let Ok(b) = BoardId::try_from(&format!("{i:02}")[..]) {
+            v.push(b.mac_address());
+        }
+    }
+    v
+}
+
+#[derive(Clone)]
+pub struct Block {
+    pub index: u16,
+    pub size: u16,
+    pub samples: Vec<i16>,
+    pub pad: Vec<u8>,
+}
+
+#[derive(Clone)]
+pub struct Pk {
+    pub ver: u8,
+    pub chip: u8,
+    pub comp: u8,
+    pub trig: u8,
+    pub mac: [u8; 6],
+    pub delay: u16,
+    pub ts: u64, // 48 bits used
+    pub zero: [u8; 2],
+    pub last: u16,
+    pub req: u16,
+    pub sent: u128, // 80 bits used
+    pub over: u128,
+    pub counter: u32,
+    pub fifo: u16,
+    pub wd: u8,
+    pub rd: u8,
+    pub blocks: Vec<Block>,
+    pub marker: Vec<u8>,
+    pub trailing: Vec<u8>,
+}
+impl Pk {
+    pub fn bytes(&self) -> Vec<u8> {
+        let mut b = vec![self.ver, self.chip, self.comp, self.trig];
+        b.extend(self.mac);
+        b.extend(self.delay.to_le_bytes());
+        b.extend(&self.ts.to_le_bytes()[..6]);
+        b.extend(self.zero);
+        b.extend(self.last.to_le_bytes());
+        b.extend(self.req.to_le_bytes());
+        b.extend(&self.sent.to_le_bytes()[..10]);
+        b.extend(&self.over.to_le_bytes()[..10]);
+        b.extend(self.counter.to_le_bytes());
+        b.extend(self.fifo.to_le_bytes());
+        b.push(self.wd);
+        b.push(self.rd);
+        for k in &self.blocks {
+            b.extend(k.index.to_le_bytes());
+            b.extend(k.size.to_le_bytes());
+            for s in &k.samples {
+                b.extend(s.to_le_bytes());
+            }
+            b.extend(&k.pad);
+        }
+        b.extend(&self.marker);
+        b.extend(&self.trailing);
+        b
+    }
+    /// rebuild the blocks so that they match `sent` and `req`
+    pub fn fill(&mut self, r: &mut Rng) {
+        self.blocks.clear();
+        for bit in 0..80u16 {
+            if self.sent >> bit & 1 == 1 {
+                self.blocks.push(Block {
+                    index: bit + 1,
+                    size: self.req,
+                    samples: samples(r, self.req as usize),
+                    pad: if self.req % 2 == 1 { vec![0, 0] } else { vec![] },
+                });
+            }
+        }
+    }
+}
+
+pub fn samples(r: &mut Rng, n: usize) -> Vec<i16> {
+    let style = r.below(6);
+    let base = r.range(0, 4000) as i16 - 2000;
+    (0..n)
+        .map(|i| match style {
+            0 => {
+                if r.chance(1, 2) {
+                    i16::MIN
+                } else {
+                    i16::MAX
+                }
+            }
+            1 => r.next() as i16,
+            2 => i as i16,                 // position-revealing ramp
+            3 => -13108,                   // looks like the end marker
+            _ => base + (r.below(200) as i16) - 100,
+        })
+        .collect()
+}
+
+const ALL79: u128 = (1u128 << 79) - 1;
+
+fn rand_mask(r: &mut Rng) -> u128 {
+    let x = (r.next() as u128) | ((r.next() as u128) << 64);
+    let m = match r.below(6) {
+        0 => x & r.next() as u128 & (r.next() as u128) << 30, // sparse
+        1 => x | (r.next() as u128) << 20,                   // dense
+        2 => 1u128 << r.below(79),
+        3 => (1u128 << r.below(79)) | (1u128 << r.below(79)),
+        _ => x,
+    };
+    m & ALL79
+}
+
+fn req_class(r: &mut Rng) -> u16 {
+    match r.below(10) {
+        0 => 0,
+        1 => 1,
+        2 => 2,
+        3 => 3,
+        4 => 510,
+        5 => 511,
+        _ => r.range(0, 60) as u16,
+    }
+}
+
+/// a well-formed packet with the given mask and sample count
+pub fn valid_with(r: &mut Rng, macs: &[[u8; 6]], sent: u128, req: u16) -> Pk {
+    let over = match r.below(4) {
+        0 => 0,
+        1 => sent,
+        2 => sent & rand_mask(r),
+        _ => rand_mask(r), // not a subset of sent: the decoder does not relate the two masks
+    };
+    let mut p = Pk {
+        ver: 2,
+        chip: b'A' + r.below(4) as u8,
+        comp: 0,
+        trig: r.pick(&[0u8, 1, 3]),
+        mac: macs[r.below(macs.len() as u64) as usize],
+        delay: r.boundary(0xFFFF) as u16,
+        ts: r.boundary((1u64 << 48) - 1),
+        zero: [0, 0],
+        last: r.boundary(511) as u16,
+        req,
+        sent,
+        over,
+        counter: r.boundary(u32::MAX as u64) as u32,
+        fifo: r.boundary(0xFFFF) as u16,
+        wd: r.boundary(255) as u8,
+        rd: r.boundary(255) as u8,
+        blocks: vec![],
+        marker: vec![204; 4],
+        trailing: vec![],
+    };
+    p.fill(r);
+    p
+}
+
+/// small valid packet (at most a handful of channels, short waveforms) used as base of perturbations
+pub fn small_valid(r: &mut Rng, macs: &[[u8; 6]]) -> Pk {
+    let mut sent = 0u128;
+    for _ in 0..r.range(1, 5) {
+        sent |= 1u128 << r.below(79);
+    }
+    let req = r.pick(&[0u16, 1, 2, 3, 4, 5, 8, 9]);
+    valid_with(r, macs, sent, req)
+}
+
+fn emit(s: &mut Sink, label: &str, bytes: &[u8]) {
+    let o = observe(bytes);
+    let nontrivial = bytes.len() >= 56 && bytes[0] == 2;
+    s.put(&format!("pwbv2 {}", hex(bytes)), &o, label, nontrivial);
+}
+
+const N_PERTURB: u64 = 34;
+/// one systematic perturbation of a valid packet
+fn perturb(r: &mut Rng, base: &Pk, k: u64) -> Vec<u8> {
+    let mut p = base.clone();
+    let nb = p.blocks.len();
+    let pickb = |r: &mut Rng| r.below(nb.max(1) as u64) as usize;
+    match k {
+        0 => p.ver = r.pick(&[0u8, 1, 3, 255]),
+        1 => p.chip = r.pick(&[b'A' - 1, b'D' + 1, b'a', 0, 1, 2, 3, 255]),
+        2 => p.comp = r.pick(&[1u8, 2, 255]),
+        3 => p.trig = r.pick(&[2u8, 4, 255]),
+        4 => p.mac[r.below(6) as usize] ^= 1 << r.below(8),
+        5 => p.mac = [0; 6],
+        6 => p.zero = r.pick(&[[1u8, 0], [0, 1], [255, 255], [0, 128]]),
+        7 => p.last = r.pick(&[512u16, 513, 1023, 0x8000, 0xFFFF]),
+        8 => p.last = r.pick(&[0u16, 510, 511]), // still valid
+        9 => p.req = p.req.wrapping_add(1),      // header only: length equation fails (or sizes mismatch)
+        10 => p.req = p.req.wrapping_sub(1),
+        11 => {
+            // consistent but too large sample count
+            p.req = r.pick(&[512u16, 513]);
+            p.sent = 1u128 << r.below(79);
+            p.fill(r);
+        }
+        12 => p.sent |= 1u128 << 79,
+        13 => p.over |= 1u128 << 79,
+        14 => p.sent ^= 1u128 << r.below(79), // one channel more or less in the mask, blocks unchanged
+        15 => p.over ^= 1u128 << r.below(79), // still valid
+        16 => {
+            if nb > 0 {
+                let i = pickb(r);
+                p.blocks[i].index = p.blocks[i].index.wrapping_add(1);
+            }
+        }
+        17 => {
+            if nb > 0 {
+                let i = pickb(r);
+                p.blocks[i].index = p.blocks[i].index.wrapping_sub(1);
+            }
+        }
+        18 => {
+            if nb > 0 {
+                let i = pickb(r);
+                p.blocks[i].index = r.pick(&[0u16, 80, 81, 255, 256, 0x8000, 0xFFFF]);
+            }
+        }
+        19 => {
+            if nb > 1 {
+                let i = pickb(r);
+                let j = (i + 1) % nb;
+                p.blocks.swap(i, j); // wrong order
+            }
+        }
+        20 => {
+            if nb > 1 {
+                p.blocks.reverse();
+            }
+        }
+        21 => {
+            if nb > 0 {
+                let i = pickb(r);
+                p.blocks[i].size = p.blocks[i].size.wrapping_add(1);
+            }
+        }
+        22 => {
+            if nb > 0 {
+                let i = pickb(r);
+                p.blocks[i].size = r.pick(&[0u16, 1, 511, 512, 0xFFFF]);
+            }
+        }
+        23 => {
+            // non-zero padding (odd counts) / padding where none belongs (even counts)
+            if nb > 0 {
+                let i = pickb(r);
+                p.blocks[i].pad = r.pick(&[[1u8, 0], [0, 1], [0, 128], [204, 204]]).to_vec();
+            }
+        }
+        24 => {
+            if nb > 0 {
+                let i = pickb(r);
+                p.blocks[i].pad = vec![]; // padding missing (odd) -- no change when even
+            }
+        }
+        25 => {
+            if nb > 0 {
+                let i = pickb(r);
+                p.blocks[i].samples.pop();
+            }
+        }
+        26 => {
+            if nb > 0 {
+                let i = pickb(r);
+                p.blocks[i].samples.push(0);
+            }
+        }
+        27 => p.marker[r.below(4) as usize] ^= 1 << r.below(8),
+        28 => p.marker = r.pick(&[[0u8; 4], [204, 204, 204, 0], [0xCC, 0xCC, 0xCD, 0xCC], [205, 204, 204, 204]]).to_vec(),
+        29 => p.marker = vec![204; r.pick(&[0usize, 1, 2, 3, 5, 6, 8])],
+        30 => p.trailing = vec![r.pick(&[0u8, 204]); r.range(1, 4) as usize],
+        31 => {
+            if nb > 0 {
+                p.blocks.pop(); // last block missing, mask unchanged
+            }
+        }
+        32 => {
+            if nb > 0 {
+                let b = p.blocks[pickb(r)].clone();
+                p.blocks.push(b); // extra block
+            }
+        }
+        _ => {
+            // a sample changed: still valid, waveform differs
+            if nb > 0 && p.req > 0 {
+                let i = pickb(r);
+                let j = r.below(p.req as u64) as usize;
+                p.blocks[i].samples[j] = r.next() as i16;
+            }
+        }
+    }
+    p.bytes()
+}
+
+pub fn run(tier: &str, seed: u64, s: &mut Sink) {
+    let mut r = Rng::new(seed ^ 0xC05);
+    let thorough = tier == "thorough";
+    let macs = known_macs();
+    let reqs_sys: [u16; 6] = [0, 1, 2, 3, 510, 511];
+
+    // --- all 79 single-channel masks (+ bit 79) x requested_samples
+    for bit in 0..80u32 {
+        let reqs: Vec<u16> = if thorough {
+            let mut v = reqs_sys.to_vec();
+            v.push(r.range(4, 509) as u16);
+            v
+        } else {
+            vec![reqs_sys[(bit % 6) as usize], r.pick(&[0u16, 1, 2, 510, 511]), r.range(3, 40) as u16]
+        };
+        for req in reqs {
+            let p = valid_with(&mut r, &macs, 1u128 << bit, req);
+            emit(s, "single-channel", &p.bytes());
+        }
+    }
+    // --- full mask and random masks
+    for &req in &reqs_sys {
+        if req < 500 || thorough {
+            let p = valid_with(&mut r, &macs, ALL79, req);
+            emit(s, "full-mask", &p.bytes());
+        }
+    }
+    let p = valid_with(&mut r, &macs, ALL79, 511);
+    emit(s, "full-mask", &p.bytes());
+    let n_rand_mask = if thorough { 3000 } else { 300 };
+    for _ in 0..n_rand_mask {
+        let m = rand_mask(&mut r);
+        let mut req = req_class(&mut r);
+        if req > 100 && m.count_ones() > 8 && !r.chance(1, 20) {
+            req = r.range(0, 40) as u16; // keep most cases small
+        }
+        let p = valid_with(&mut r, &macs, m, req);
+        emit(s, "random-mask", &p.bytes());
+    }
+    // --- requested_samples and last_sca_cell around the guard constant, consistent data
+    for req in [509u16, 510, 511, 512, 513] {
+        for nch in [1usize, 2] {
+            let mut m = 0u128;
+            while (m.count_ones() as usize) < nch {
+                m |= 1u128 << r.below(79);
+            }
+            let p = valid_with(&mut r, &macs, m, req);
+            emit(s, "requested-samples-boundary", &p.bytes());
+        }
+    }
+    for last in [0u16, 1, 510, 511, 512, 513, 0xFFFF] {
+        let mut p = small_valid(&mut r, &macs);
+        p.last = last;
+        emit(s, "last-sca-cell-boundary", &p.bytes());
+    }
+    // --- header bytes 0..=255 for version / chip / compression / trigger source
+    for field in 0..4 {
+        for v in 0..=255u8 {
+            let mut p = small_valid(&mut r, &macs);
+            match field {
+                0 => p.ver = v,
+                1 => p.chip = v,
+                2 => p.comp = v,
+                _ => p.trig = v,
+            }
+            emit(s, "header-byte-sweep", &p.bytes());
+        }
+    }
+    // --- every known MAC, and unknown ones
+    for mac in &macs {
+        let mut p = small_valid(&mut r, &macs);
+        p.mac = *mac;
+        emit(s, "known-mac", &p.bytes());
+        let mut q = p.clone();
+        q.mac[r.below(6) as usize] ^= 1 << r.below(8);
+        emit(s, "mac-one-bit-off", &q.bytes());
+    }
+    for _ in 0..20 {
+        let mut p = small_valid(&mut r, &macs);
+        let m = r.bytes(6);
+        p.mac.copy_from_slice(&m);
+        emit(s, "random-mac", &p.bytes());
+    }
+    // --- over-threshold mask vs sent mask
+    for _ in 0..(if thorough { 400 } else { 60 }) {
+        let mut p = small_valid(&mut r, &macs);
+        p.over = match r.below(5) {
+            0 => ALL79,
+            1 => ALL79 & !p.sent,
+            2 => p.sent,
+            3 => 1u128 << 78,
+            _ => rand_mask(&mut r),
+        };
+        emit(s, "over-threshold-mask", &p.bytes());
+    }
+    // --- near-valid variants: one field / length / block changed
+    let n_base = if thorough { 1200 } else { 150 };
+    for _ in 0..n_base {
+        let base = small_valid(&mut r, &macs);
+        emit(s, "valid-small", &base.bytes());
+        for k in 0..N_PERTURB {
+            emit(s, &format!("perturb-{k:02}"), &perturb(&mut r, &base, k));
+        }
+        // truncations and extensions
+        let b = base.bytes();
+        for d in [1usize, 2, 3, 4, 5, 6] {
+            if b.len() > d {
+                emit(s, "truncated", &b[..b.len() - d]);
+            }
+        }
+        // a byte changed / a bit flipped anywhere
+        for _ in 0..6 {
+            let mut q = b.clone();
+            let i = if r.chance(1, 2) { r.below(52) as usize } else { r.below(q.len() as u64) as usize };
+            if r.chance(1, 2) {
+                q[i] ^= 1 << r.below(8);
+            } else {
+                q[i] = r.next() as u8;
+            }
+            emit(s, "byte-change", &q);
+        }
+    }
+    // --- every multi-bit field of an ACCEPTED packet with each single bit set: 2^k, 2^k - 1, 2^k + 1
+    let around = |k: u32, max: u64| -> Vec<u64> {
+        let b = 1u64 << k;
+        let mut v = vec![b, b - 1];
+        if b < max {
+            v.push(b + 1);
+        }
+        v.into_iter().filter(|x| *x <= max).collect()
+    };
+    for (field, bits, max) in [
+        ("delay", 16u32, 0xFFFFu64),
+        ("ts", 48, (1u64 << 48) - 1),
+        ("last", 10, 511),
+        ("req", 10, 511),
+        ("counter", 32, u32::MAX as u64),
+        ("fifo", 16, 0xFFFF),
+        ("wd", 8, 255),
+        ("rd", 8, 255),
+    ] {
+        for k in 0..bits {
+            for v in around(k, max) {
+                let mut p = small_valid(&mut r, &macs);
+                match field {
+                    "delay" => p.delay = v as u16,
+                    "ts" => p.ts = v,
+                    "last" => p.last = v as u16,
+                    "req" => {
+                        p.req = v as u16;
+                        // large counts: keep one or two channels so that the packet stays small
+                        if v > 64 {
+                            p.sent = (1u128 << r.below(79)) | (1u128 << r.below(79));
+                        }
+                        p.fill(&mut r);
+                    }
+                    "counter" => p.counter = v as u32,
+                    "fifo" => p.fifo = v as u16,
+                    "wd" => p.wd = v as u8,
+                    _ => p.rd = v as u8,
+                }
+                emit(s, "field-single-bit", &p.bytes());
+            }
+        }
+    }
+    // both masks: every single bit, and every bit together with its neighbours / with the top legal bit
+    for k in 0..79u32 {
+        let mut p = small_valid(&mut r, &macs);
+        p.over = 1u128 << k;
+        emit(s, "field-single-bit", &p.bytes());
+        let mut p = small_valid(&mut r, &macs);
+        p.over = (1u128 << k) | (1u128 << 78) | ((1u128 << k) - 1);
+        emit(s, "field-single-bit", &p.bytes());
+        let req = r.pick(&[0u16, 1, 2, 5]);
+        let m = (1u128 << k) | (1u128 << 78) | (if k > 0 { 1u128 << (k - 1) } else { 0 });
+        let p = valid_with(&mut r, &macs, m, req);
+        emit(s, "field-single-bit", &p.bytes());
+    }
+    // samples: every single bit of an i16 at the first / last / a middle position of a block
+    for k in 0..16u32 {
+        for d in [0i32, -1, 1] {
+            let mut p = small_valid(&mut r, &macs);
+            if p.req == 0 {
+                p.req = 5;
+                p.fill(&mut r);
+            }
+            let v = ((1i32 << k) + d) as u16 as i16;
+            let nb = p.blocks.len();
+            let n = p.req as usize;
+            p.blocks[0].samples[0] = v;
+            p.blocks[nb - 1].samples[n - 1] = v;
+            p.blocks[nb / 2].samples[n / 2] = v;
+            emit(s, "field-single-bit", &p.bytes());
+        }
+    }
+    // --- an invalid element FOLLOWED (and preceded) by plenty of valid data: many blocks, defect early
+    for _ in 0..(if thorough { 600 } else { 120 }) {
+        let nch = r.range(8, 30) as usize;
+        let mut m = 0u128;
+        while (m.count_ones() as usize) < nch {
+            m |= 1u128 << r.below(79);
+        }
+        let req = r.pick(&[1u16, 2, 3, 4, 7]);
+        let mut p = valid_with(&mut r, &macs, m, req);
+        // defect early (followed by plenty of valid blocks), in the middle, or late (preceded by plenty)
+        let at = match r.below(6) {
+            0 => 0,
+            1 => 1,
+            2 | 3 => r.below(nch as u64 / 2) as usize,
+            4 => nch - 2,
+            _ => r.range(nch as u64 / 2, nch as u64 - 2) as usize,
+        };
+        let label = match r.below(8) {
+            0 => {
+                p.blocks[at].index += 1;
+                "defect-then-valid"
+            }
+            1 => {
+                p.blocks[at].index -= 1;
+                "defect-then-valid"
+            }
+            2 => {
+                p.blocks[at].size ^= 1 << r.below(10);
+                "defect-then-valid"
+            }
+            3 => {
+                p.blocks[at].pad = if req % 2 == 1 { r.pick(&[[0u8, 1], [128, 0]]).to_vec() } else { vec![0, 0] };
+                "defect-then-valid"
+            }
+            4 => {
+                p.blocks.swap(at, at + 1);
+                "defect-then-valid"
+            }
+            5 => {
+                p.blocks.remove(at);
+                "defect-then-valid"
+            }
+            6 => {
+                let b = p.blocks[at].clone();
+                p.blocks.insert(at, b);
+                "defect-then-valid"
+            }
+            _ => "many-blocks-valid",
+        };
+        emit(s, label, &p.bytes());
+    }
+    // header defect followed by a long valid body
+    for k in [0u64, 1, 2, 3, 4, 6, 7, 12, 13] {
+        let mut m = 0u128;
+        while m.count_ones() < 20 {
+            m |= 1u128 << r.below(79);
+        }
+        let base = valid_with(&mut r, &macs, m, 6);
+        emit(s, "header-defect-long-body", &perturb(&mut r, &base, k));
+    }
+    // --- length-like field: header count N, block size field s, a samples actually present, N-1 <= s, a <= N+1
+    for n in [0i32, 1, 2, 3, 4, 5, 510, 511] {
+        for ds in [-1i32, 0, 1] {
+            for da in [-1i32, 0, 1] {
+                for pad_by_actual in [false, true] {
+                    let (sz, act) = (n + ds, n + da);
+                    if sz < 0 || act < 0 {
+                        continue;
+                    }
+                    let nch = if n > 100 { 2 } else { r.range(1, 4) as usize };
+                    let mut m = 0u128;
+                    while (m.count_ones() as usize) < nch {
+                        m |= 1u128 << r.below(79);
+                    }
+                    let mut p = valid_with(&mut r, &macs, m, n as u16);
+                    // all blocks, or only the first one
+                    let only_first = r.chance(1, 3);
+                    for (i, b) in p.blocks.iter_mut().enumerate() {
+                        if only_first && i > 0 {
+                            continue;
+                        }
+                        b.size = sz as u16;
+                        b.samples = samples(&mut r, act as usize);
+                        let odd = if pad_by_actual { act % 2 == 1 } else { n % 2 == 1 };
+                        b.pad = if odd { vec![0, 0] } else { vec![] };
+                    }
+                    emit(s, "count-vs-units", &p.bytes());
+                }
+            }
+        }
+    }
+    // --- lengths 0..=140 (prefix of a valid packet, zero-extended; random with a valid-looking start)
+    let mut base = valid_with(&mut r, &macs, 0b1001, 9);
+    base.over = 0b1000;
+    let base = base.bytes();
+    for len in 0..=140usize {
+        let mut q = base.clone();
+        q.resize(len, 0);
+        emit(s, "length", &q);
+        let mut z = r.bytes(len);
+        for (i, v) in [2u8, b'B', 0, 1].iter().enumerate() {
+            if i < len {
+                z[i] = *v;
+            }
+        }
+        emit(s, "length-random", &z);
+    }
+    // empty mask: the shortest valid packet (56 bytes)
+    for _ in 0..5 {
+        let req = req_class(&mut r);
+        let p = valid_with(&mut r, &macs, 0, req);
+        emit(s, "empty-mask", &p.bytes());
+    }
+    // --- random bytes; random tail after a valid header
+    let n_rand = if thorough { 5000 } else { 400 };
+    for _ in 0..n_rand {
+        let len = r.below(300) as usize;
+        emit(s, "random", &r.bytes(len));
+        let p = small_valid(&mut r, &macs);
+        let mut b = p.bytes();
+        let keep = r.range(24, 52) as usize;
+        let tail = r.bytes(b.len() - keep);
+        b[keep..].copy_from_slice(&tail);
+        emit(s, "random-tail", &b);
+    }
+}
 
 /// implementation observation for a case line of this module (None: not one of mine)
-pub fn observe_line(_line: &str) -> Option<String> {
-    None
+pub fn observe_line(line: &str) -> Option<String> {
+    let (tag, rest) = line.split_once(' ').unwrap_or((line, "-"));
+    match tag {
+        "pwbv2" => Some(observe(&crate::util::unhex(rest))),
+        _ => None,
+    }
 }
